@@ -8,6 +8,9 @@ import subprocess
 ROOT = os.path.dirname(os.path.dirname(os.path.abspath(__file__)))
 # subject prefix of the fix: commit -> (properties, what failed before the repair, how the checks showed it)
 FIXED = {
+    'fix: do not hold the primary\'s sessions lock while reading t': (['C15'], 'lock-order cycle on the primary: the catch-up read held the sessions lock (read) while taking the WAL lock, a writer holds the WAL lock while taking the sessions lock (read), and any pending registration/removal/acknowledgement (write lock) in between blocks the writer for ever', 'C15 churn scenario (full-rate writers while clients attach and reset): "primary put did not return within 5000 ms"; MC_ReplLocks negative configuration deadlocks in the same state; also hit by the C02 retention walks (1 hang in 13)'),
+    'fix: WAL retention keeps the log files whose entries are in': (['C02', 'C08'], 'the primary\'s log retention (run on every Acknowledge of a replication client) deleted log files holding entries that were in no table file yet: a crash afterwards lost acknowledged, synced writes, and with all files gone the numbering restarted from 1', 'C02 retention walks generated from KevoRetention (put, flush, acknowledge, die, recover on a real primary): log files / readable entries differ from the specification; MC_Retention_neg violates Recoverable'),
+    'fix: serve the entries in front of a damaged record when re': (['C10', 'C14', 'C09'], 'WAL.GetEntriesFrom dropped every entry of an older log file ending in a record cut short by a crash and read on behind corrupt records: a primary restarted after a crash during an append could not serve what it had recovered, a joining replica saw a gap for ever', 'C10 fault enumeration: GetEntriesFrom(1) on the live log compared with what a replay of the directory yields ("from1", 70 outcomes)'),
     'fix: push a WAL batch to replicas as one message carrying t': (['C13', 'C14'], 'the push path split a WAL batch into one message per entry (and at 256 KB) and numbered them with the caller-supplied SequenceNumber field: Engine.ApplyBatch with numbered entries got its first entry through, the send cursor moved past the batch and the replica kept a strict subset of the batch for ever while reporting its sequence as applied', 'C13/C14 system scenarios pushed-applybatch-numbered-entries and pushed-batches-over-256KB: no convergence / TRACE_Repl rejects (entry count at convergence)'),
     'fix: do not hold the replica\'s lock while Stop waits for the': (['C14', 'C15'], 'Replica.Stop held r.mu across wg.Wait() while the replication loop takes r.mu after every applied message: Stop (Manager.Stop, server shutdown) could hang for ever', 'C13 system scenario restart0 under load: "replica stop did not return within 20 s"'),
     'fix: TxGet with an invalid key must not drop the transactio': (['C19', 'C17'], 'TxGet with an empty or over-long key removed the handle from the registry without rolling the transaction back: the database lock stayed held for good (no read-write transaction could begin again)', 'C19 generated behaviours: final probe "a fresh read-write transaction is granted" failed after an invalid TxGet (witness findings/W_C19_txget_invalid_key_drops_handle.json)'),
